@@ -61,8 +61,9 @@ def stratum_for(spec, tier, index):
 # single runs
 # --------------------------------------------------------------------------
 
-class RunTimeout(BaseException):
-    pass
+class RunTimeout(KeyboardInterrupt):
+    """KeyboardInterrupt subclass: asyncio's Handle._run and Task.__step swallow
+    every other BaseException into the loop's exception handler."""
 
 
 def _on_alarm(signum, frame):
